@@ -125,6 +125,15 @@ def run(ctx):
                         tag='paced-tail-%d-n%d-gap%dms-%s' % (k, n, gap // 1000, 'fin' if fin_lost else 'data'),
                         a=dict(writes=[rng.choice([100, 400, 500])] * n, write_gap_us=gap, shutdown=True),
                         b=dict(writes=[rng.choice([0, 200])] if k % 2 else [], shutdown=True), a2b=dict(rules=rules)))
+    # ---- handshake packets lost twice in a row (the SYN and its first retransmission, the SYN-ACK and its retransmission, one
+    #      of each): the attempt is retransmitted again (after 3 s) and the transfer completes
+    for k, rules in enumerate([dict(a2b=[dict(kind='syn', nth=1, upto=2, act='drop')]),
+                               dict(b2a=[dict(kind='synack', nth=1, upto=2, act='drop')]),
+                               dict(a2b=[dict(kind='syn', nth=1, act='drop')], b2a=[dict(kind='synack', nth=1, act='drop')]),
+                               dict(a2b=[dict(kind='syn', nth=1, upto=3, act='drop')])][:ctx.pick(3, 4)]):
+        scs.append(dict(v=4 if k % 2 == 0 else 6, mtu=1500, sack=True, cc='', deadline_ms=30000, seed=400 + k, flags={}, tag='handshake-loss-%d' % k,
+                        a=dict(writes=[500], shutdown=True), b=dict(writes=[300], shutdown=True),
+                        a2b=dict(rules=rules.get('a2b', [])), b2a=dict(rules=rules.get('b2a', []))))
     # ---- a SCALED receive window closes with 1 .. 2^scale - 1 bytes of buffer left (the field on the wire is zero although
     #      the buffer is not full), then the application drains the buffer: the window must re-open (no packet is lost)
     for k, (rb, first) in enumerate([(131072, 7), (262144, 1), (131072, 13), (1 << 20, 7)][:ctx.pick(2, 4)]):
